@@ -4,6 +4,7 @@
 package exec
 
 import (
+	"time"
 	"bytes"
 	"context"
 	"encoding/json"
@@ -167,7 +168,7 @@ const verifC09EnumName = "TestVerifC09CombiningFrameEnum"
 func TestVerifC09CombiningFrameEnum(t *testing.T) {
 	nkeys, maxLen := vt.Pick(6, 7), vt.Pick(6, 7)
 	rec := vt.New("C09", "combining-frame-enum",
-		fmt.Sprintf("complete enumeration of all key sequences of length <= %d over %d keys fed to makeCombiningFrame(typ, sum, init, scratch) with initial table sizes cycling {8,4,2} for two alphabets (all keys colliding into one slot of the size-8 table; unrelated keys), scratch sizes cycling 1..3, Combine batch sizes cycling 1..3, with a mid-stream Compact at a cycling position; oracle: map model (Len after every batch; one row per key with the folded value after Compact; nothing lost across compactions); non-trivial = the table was resized at least once; distinct by (alphabet, sequence)", maxLen, nkeys))
+		fmt.Sprintf("complete enumeration of all key sequences of length <= %d over %d keys fed to makeCombiningFrame(typ, sum, init, scratch) with initial table sizes cycling {8,4,2,1} for two alphabets (all keys colliding into one slot of the size-8 table; unrelated keys), scratch sizes cycling 1..3, Combine batch sizes cycling 1..3, with a mid-stream Compact at a cycling position; oracle: map model (Len after every batch; one row per key with the folded value after Compact; nothing lost across compactions); non-trivial = the table was resized at least once; distinct by (alphabet, sequence)", maxLen, nkeys))
 	docs, only := vt.Replays(verifC09EnumName)
 	for _, d := range docs {
 		var c verifC09Seq
@@ -192,11 +193,18 @@ func TestVerifC09CombiningFrameEnum(t *testing.T) {
 		rec1 = func() {
 			idx++
 			if vt.Mine(idx) {
-				c := verifC09Seq{Keys: keys, Seq: append([]int{}, seq...), Scratch: 1 + idx%3, Batch: 1 + (idx/3)%3, Compact: -1, Init: []int{8, 4, 2, 8}[(idx/9)%4]}
+				c := verifC09Seq{Keys: keys, Seq: append([]int{}, seq...), Scratch: 1 + idx%3, Batch: 1 + (idx/3)%3, Compact: -1, Init: []int{8, 4, 2, 1}[(idx/9)%4]}
 				if len(seq) > 0 && idx%2 == 0 {
 					c.Compact = (idx / 7) % len(seq)
 				}
-				resized, err := verifC09RunSeq(c)
+				if reported {
+					return
+				}
+				var resized bool
+				var err error
+				if !verifC09Within(30*time.Second, func() { resized, err = verifC09RunSeq(c) }) {
+					err = fmt.Errorf("feeding the key sequence did not return within 30s (the table is probing forever?)")
+				}
 				class := "collision-alphabet"
 				if !collide {
 					class = "plain-alphabet"
@@ -468,7 +476,11 @@ func TestVerifC09CombinerRandom(t *testing.T) {
 		}
 		b, _ := json.Marshal(c)
 		faulted0, ferrs0 := verifC09Faulted, verifC09FaultErrs
-		spills, err := verifC09Run(c)
+		var spills int64
+		var err error
+		if !verifC09Within(120*time.Second, func() { spills, err = verifC09Run(c) }) {
+			err = fmt.Errorf("combiner (vector size %d, spill threshold %d) did not finish within 120s", c.Chunk, c.Target)
+		}
 		classes := []string{}
 		if verifC09Faulted > faulted0 {
 			classes = append(classes, "spill-file-open-fault")
@@ -504,3 +516,18 @@ func TestVerifC09CombinerRandom(t *testing.T) {
 }
 
 var _ = sort.Ints
+
+// verifC09Within runs f and reports whether it returned in time (a f that never returns is left behind).
+func verifC09Within(d time.Duration, f func()) bool {
+	done := make(chan struct{})
+	go func() {
+		defer close(done)
+		f()
+	}()
+	select {
+	case <-done:
+		return true
+	case <-time.After(d):
+		return false
+	}
+}
